@@ -881,6 +881,13 @@ func getAreaHook(ctx *core.Ctx, bin string) {
 			return
 		}
 	}
+	// field names that become reserved words once trimmed (refusing them is fine), and a field
+	// value that is not valid UTF-8
+	for _, cmd := range [][]string{{"SET", "gfleet", "rz", "FIELD", " z", "5", "POINT", "1", "2"}, {"FSET", "gfleet", "rz", " lat", "7"}, {"SET", "gfleet", "rz2", "FIELD", "lon ", "3", "POINT", "1", "2"}} {
+		c.Do(cmd...)
+	}
+	c.Do("SET", "gfleet", "u8", "FIELD", "f", "ab\xffcd", "FIELD", "g", "\xfe\xfd", "POINT", "1", "2")
+	u8before, _ := c.Do("GET", "gfleet", "u8", "WITHFIELDS")
 	names := func(addr string) (map[string]bool, error) {
 		d, err := dump.Take(addr, dump.Opts{})
 		if err != nil {
@@ -917,6 +924,13 @@ func getAreaHook(ctx *core.Ctx, bin string) {
 	if err != nil {
 		ctx.Inconclusive(err.Error())
 		return
+	}
+	if c3, err := respc.Dial(s2.Addr(), 5*time.Second); err == nil {
+		u8after, err := c3.Do("GET", "gfleet", "u8", "WITHFIELDS")
+		c3.Close()
+		if err == nil && u8after.String() != u8before.String() {
+			ctx.Violation("shrink-restart-diff:invalid-utf8-field", fmt.Sprintf("`SET gfleet u8 FIELD f \"ab\\xffcd\" FIELD g \"\\xfe\\xfd\" POINT 1 2`: GET ... WITHFIELDS answers %s before AOFSHRINK and %s after the restart on the shrunk log", u8before.String(), u8after.String()), nil)
+		}
 	}
 	ctx.Eval(1)
 	ctx.Distinct("sequential|get-area-hook")
